@@ -1,9 +1,14 @@
 import NunavutVerif.Lemmas.Options
+import NunavutVerif.Lemmas.OptionFlow
+import NunavutVerif.Gen.OptionEmit
 /-!
 # C17 — headers generated with different language options cannot be compiled together
 
-Property theorems only (definitions: `Model/Options.lean`, `Model/Crc32.lean`; generated table:
-`Gen/OptionDomain.lean`; helper lemmas: `Lemmas/Options.lean`).
+Property theorems only (definitions: `Model/Options.lean`, `Model/Crc32.lean`, and — round 2 — `Model/OptionExpr.lean`
+(the emitted C / C++ comparison expression), `Model/OptionEmit.lean` (the emission table read from the templates and its
+meaning), `Model/OptionFlow.lean` (how a requested value reaches the templates; histories of API calls in one process);
+generated tables: `Gen/OptionDomain.lean`, `Gen/OptionEmit.lean`; helper lemmas: `Lemmas/Options.lean`,
+`Lemmas/OptionFlow.lean`).
 
 Quantifiers.  The guard theorems (`C17_accepted_iff`, `C17_guard_reports_exactly_the_differences`,
 `C17_accepted_iff_same_values`) hold for *all* option sets, all rendering functions and both languages.  The
@@ -301,6 +306,184 @@ theorem C17_crc32_check_value : crc32Str "123456789" = 0xCBF43926 := by decide +
 
 /-- The CRC of any string is a 32-bit number. -/
 theorem C17_crc32_range (s : String) : crc32Str s < 2 ^ 32 := crc32Str_lt s
+
+/-! ## 5. the emitted comparison (round 2) -/
+
+/-- The closed form `cmp` used by the guard theorems *is* the expression the templates emit — `static_assert( N == v )`
+with `N` a macro for the numeral `d` (C) or a `constexpr std::uint32_t` initialised from it (C++) — as a C11 / C++14
+compiler evaluates it (literal typing, unary minus, conversion on initialisation, usual arithmetic conversions; LP64),
+for all numerals a `long` can hold. -/
+theorem C17_cmp_is_the_emitted_expression (lang : Lang) (d v : Int)
+    (hd : d.natAbs < 9223372036854775808) (hv : v.natAbs < 9223372036854775808) :
+    evalAssert (defFormOf lang) .eq d v = some (cmp lang d v) :=
+  evalAssert_eq_cmp lang d v hd hv
+
+/-- Soundness of the comparison operator: on numbers of the `uint32` range (every bool and string option, every
+documented value: `C17_bool_and_string_values_fit`, `C17_documented_values_fit`) the emitted assertion passes iff the
+two numbers are equal, in both languages. -/
+theorem C17_assertion_passes_iff_equal (lang : Lang) (d v : Int)
+    (hd : 0 ≤ d ∧ d < 4294967296) (hv : 0 ≤ v ∧ v < 4294967296) :
+    evalAssert (defFormOf lang) .eq d v = some (decide (d = v)) := by
+  rw [evalAssert_eq_cmp lang d v (by omega) (by omega), cmp_eq_decide lang hd hv]
+
+/-- C++ beyond that range: the assertion passes iff the two numbers are equal *as unsigned 32-bit values* (the
+definition is stored in a `std::uint32_t`), for every definition a `long` can hold and every asserted numeral in
+`(-2^31, 2^32)`; C compares the two numerals exactly. -/
+theorem C17_assertion_compares_unsigned_32_bit (d v : Int) (hd : d.natAbs < 9223372036854775808) :
+    (-2147483648 < v ∧ v < 4294967296 →
+      evalAssert (defFormOf .cpp) .eq d v = some (decide (d % 4294967296 = v % 4294967296))) ∧
+    (v.natAbs < 9223372036854775808 → evalAssert (defFormOf .c) .eq d v = some (decide (d = v))) := by
+  constructor
+  · intro hv
+    rw [evalAssert_eq_cmp .cpp d v hd (by omega), cmp_cpp_mod d v hv]
+  · intro hv
+    rw [evalAssert_eq_cmp .c d v hd hv]
+    simp [cmp, stored, int_beq_decide]
+
+/-! ## 6. the emission table read from the templates (round 2) -/
+
+/-- The table `Gen.emitSites` (Jinja AST of the four anchored templates and of everything they import / include /
+extend, regenerated on every run): every header kind has exactly one emission site; it is a plain output statement in a
+`for key, value in options.items()` loop; the only conditions on it are the header's own include guard and — on the type
+side of both languages — `not nunavut.support.omit`; the printed name is `"NUNAVUT_SUPPORT_LANGUAGE_OPTION_{}".format(key)
+| ln.c.macrofy` (C) / `key | id` (C++) on both sides; the printed number is `value | to_static_assertion_value`; the
+statements are `#define N V`, `constexpr std::uint32_t N = V;` and `static_assert( [nunavut::support::options::]N == V, …`.
+Any other guard (a per-translation-unit once guard, `#ifdef static_assert`, an `if` on the key or the value, a `{% set %}`
+block rendered once, another operand type or operator …) is in the table by name and makes this statement false. -/
+theorem C17_emission_table_shape : tableOK Gen.emitSites = true := by decide +kernel
+
+/-- Hence the meaning of the table is the hand-written model: for every pair of name filters, every option set (not
+only documented ones) and both values of `nunavut.support.omit`, the support header carries `defines` and a type header
+carries `asserts`. -/
+theorem C17_emission_table_is_the_model (nf : NameFilters) (lang : Lang) (om : Bool) (o : OptSet) :
+    tableRender Gen.emitSites nf lang .support om o = some (defines (canonicalName nf lang) o) ∧
+    tableRender Gen.emitSites nf lang .type om o = some (asserts lang om (canonicalName nf lang) o) := by
+  constructor
+  · rw [tableRender_of_ok C17_emission_table_shape]; rfl
+  · rw [tableRender_of_ok C17_emission_table_shape]
+    cases om <;> rfl
+
+/-- Every documented option is defined on the support side — always — and asserted on the type side exactly when
+serialization support is not omitted: for every documented option set the support header defines precisely the rendered
+names of its keys, a type header asserts precisely the same names, and a POD header (`omit`) asserts nothing. -/
+theorem C17_every_documented_option_emitted (nf : NameFilters) (lang : Lang) (o : OptSet)
+    (h : Documented (Gen.domain lang) o) :
+    ∃ d a, (∀ om, tableRender Gen.emitSites nf lang .support om o = some (some d)) ∧
+      tableRender Gen.emitSites nf lang .type false o = some (some a) ∧
+      tableRender Gen.emitSites nf lang .type true o = some (some []) ∧
+      d.map Prod.fst = (keys o).map (canonicalName nf lang) ∧ a = d := by
+  have hf := C17_documented_values_fit lang
+  obtain ⟨d, hd⟩ := render_isSome (canonicalName nf lang) o (fun kv hkv => by
+    obtain ⟨e, he, _, hv⟩ := documented_mem _ o h kv hkv
+    obtain ⟨n, hn, _⟩ := encFits_iff.mp (hf e he kv.2 hv)
+    simp [hn])
+  refine ⟨d, d, ?_, ?_, ?_, render_keys _ o d hd, rfl⟩
+  · intro om
+    rw [(C17_emission_table_is_the_model nf lang om o).1, defines, hd]
+  · rw [(C17_emission_table_is_the_model nf lang false o).2]; simp [asserts, hd]
+  · rw [(C17_emission_table_is_the_model nf lang true o).2]; simp [asserts]
+
+/-! ## 7. the value an option had for *this* run (round 2) -/
+
+/-- Glue, stated for every history of API calls in one process (`generate_types`, constructing generator objects,
+passes of `generate_all` on kept generator objects with varying `omit_serialization_support`), every built-in
+configuration and every pair of templates: the result of each call is the one determined by *its own* request — the
+encodings of the effective values (`defaults ⊕ request`, then the language-standard preset) of the request given to that
+call (for a pass: to the construction of its generator) and that pass's own `omit` flag.  Nothing an earlier call
+requested is in force later. -/
+theorem C17_history_emits_requested_values (lang : Lang) (file : LangConfig) (E : Emitter) (cs : List Call) :
+    runHistory lang file E [] cs = specHistory lang file E [] cs :=
+  runHistory_eq_spec lang file E cs [] [] (inv_nil lang file)
+
+/-- The property over histories: take any two `generate_types` calls (with serialization support) of one process whose
+effective option sets are documented ones.  Both generate; the support header of the one and the type headers of the
+other pass the option guard iff the two effective sets are identical. -/
+theorem C17_history_runs_compile_together_iff_identical (lang : Lang) (cs : List Call)
+    (req₁ req₂ o₁ o₂ : OptSet) (r₁ r₂ : RunResult)
+    (hc₁ : (Call.generateTypes req₁ false, r₁) ∈
+      cs.zip (runHistory lang (Gen.fileConfig lang) (modelEmitter lang (nameOf (Gen.domain lang))) [] cs))
+    (hc₂ : (Call.generateTypes req₂ false, r₂) ∈
+      cs.zip (runHistory lang (Gen.fileConfig lang) (modelEmitter lang (nameOf (Gen.domain lang))) [] cs))
+    (he₁ : effective lang (Gen.fileConfig lang) req₁ = .ok o₁) (he₂ : effective lang (Gen.fileConfig lang) req₂ = .ok o₂)
+    (hd₁ : Documented (Gen.domain lang) o₁) (hd₂ : Documented (Gen.domain lang) o₂) :
+    ∃ d₁ a₁ d₂ a₂, r₁ = .ok ⟨some d₁, a₁⟩ ∧ r₂ = .ok ⟨some d₂, a₂⟩ ∧ (accepted lang d₁ a₂ = true ↔ o₁ = o₂) := by
+  rw [C17_history_emits_requested_values] at hc₁ hc₂
+  obtain ⟨p₁, hr₁⟩ := specHistory_zip _ _ _ cs [] _ _ hc₁
+  obtain ⟨p₂, hr₂⟩ := specHistory_zip _ _ _ cs [] _ _ hc₂
+  have hiff := C17_compile_together_iff_identical lang o₁ o₂ hd₁ hd₂
+  have hs₁ := C17_identical_accepted lang o₁ hd₁
+  have hs₂ := C17_identical_accepted lang o₂ hd₂
+  simp only [together, asserts] at hiff hs₁ hs₂
+  cases hdef₁ : defines (nameOf (Gen.domain lang)) o₁ with
+  | none => simp [hdef₁] at hs₁
+  | some d₁ =>
+    cases hdef₂ : defines (nameOf (Gen.domain lang)) o₂ with
+    | none => simp [hdef₂] at hs₂
+    | some d₂ =>
+      have ha₁ : render (nameOf (Gen.domain lang)) o₁ = some d₁ := hdef₁
+      have ha₂ : render (nameOf (Gen.domain lang)) o₂ = some d₂ := hdef₂
+      refine ⟨d₁, d₁, d₂, d₂, ?_, ?_, ?_⟩
+      · simp [hr₁, specCall, specRun, he₁, modelEmitter, hdef₁, asserts, ha₁]
+      · simp [hr₂, specCall, specRun, he₂, modelEmitter, hdef₂, asserts, ha₂]
+      · rw [← hiff]
+        simp [hdef₁, ha₂, accepted, List.isEmpty_iff]
+
+/-- Non-vacuity and the seeded classes as closed instances.  A process that calls `generate_types` with
+`target_endianness = little` and then without options: the second run emits the encoding of `any`, and its type headers do
+not pass against the first run's support header. -/
+example :
+    let E := modelEmitter .c (nameOf (Gen.domain .c))
+    let rs := runHistory .c (Gen.fileConfig .c) E [] [.generateTypes [("target_endianness", .str "little")] false, .generateTypes [] false]
+    let te := "NUNAVUT_SUPPORT_LANGUAGE_OPTION_TARGET_ENDIANNESS"
+    rs.map (fun r => match r with
+      | .ok ⟨some d, a⟩ => (d.lookup te, a.lookup te)
+      | _ => (none, none)) = [(some 434322821, some 434322821), (some 1693710260, some 1693710260)] ∧
+    (match rs with
+      | [.ok ⟨some d₁, _⟩, .ok ⟨some d₂, a₂⟩] => (accepted .c d₁ a₂, accepted .c d₂ a₂)
+      | _ => (true, false)) = (false, true) := by
+  decide +kernel
+
+/-- One generator object used for a pass without and then a pass with serialization support: the second pass's headers
+carry the full guard block (6 assertions in C), the first pass's none. -/
+example :
+    let E := modelEmitter .c (nameOf (Gen.domain .c))
+    let rs := runHistory .c (Gen.fileConfig .c) E [] [.newGenerators "g" [("target_endianness", .str "little")], .pass "g" true, .pass "g" false]
+    rs.head? = some .created ∧
+    rs.map (fun r => match r with
+      | .ok ⟨d, a⟩ => (d.map List.length, a.length, d == some a)
+      | _ => (none, 0, false)) = [(none, 0, false), (none, 0, false), (some 6, 6, true)] := by
+  decide +kernel
+
+/-- What the theorem excludes: a builder kept per process (the state `generate_types` does *not* have).  With it the
+override of the first call stays merged into the shared configuration and the second call — which requests nothing —
+is handed `little`. -/
+example :
+    let b₀ := Builder.fresh (Gen.fileConfig .c)
+    let r₁ := (b₀.setOverride [("target_endianness", .str "little")]).create .c
+    let r₂ := (r₁.1.setOverride []).create .c
+    (match r₂.2 with | .ok o => o.lookup "target_endianness" | .error _ => none) = some (.str "little") ∧
+    (match effective .c (Gen.fileConfig .c) [] with | .ok o => o.lookup "target_endianness" | .error _ => none) = some (.str "any") := by
+  decide +kernel
+
+/-- The C++ language-standard preset is part of the effective set (`--language-standard c++17-pmr`), invalid
+constructor conventions are rejected as the real validation does. -/
+example :
+    (match effective .cpp (Gen.fileConfig .cpp) [("std", .str "c++17-pmr")] with
+      | .ok o => (o.lookup "std", o.lookup "std_flavor", o.lookup "allocator_include")
+      | .error _ => (none, none, none)) = (some (.str "c++17"), some (.str "pmr"), some (.str "<memory_resource>")) ∧
+    (match effective .cpp (Gen.fileConfig .cpp) [("ctor_convention", .str "Uses_Leading_Allocator")] with
+      | .error e => some e | .ok _ => none) = some .allocatorRequired ∧
+    (match effective .cpp (Gen.fileConfig .cpp) [("ctor_convention", .str "nope")] with
+      | .error e => some e | .ok _ => none) = some .badCtor := by
+  decide +kernel
+
+-- the expression model on the corners, and a form outside it (the seeded `type_definition_option` helper type)
+example : evalAssert (.constexprVar .uint32) .eq 4294967301 5 = some true ∧
+    evalAssert .macro .eq 4294967301 5 = some false ∧
+    evalAssert (.constexprVar .uint32) .eq (-1) 4294967295 = some true ∧
+    evalAssert (.constexprVar .uint32) .eq 2147483648 (-2147483648) = some false ∧
+    evalAssert (.constexprVar .uint32) .eq 4294967295 (-1) = some true ∧
+    evalAssert (.constexprVar (.other "type_definition_option")) .eq 1 2 = none := by decide +kernel
 
 /-! ## examples: non-vacuity, the documented doctests of the filter, the defect before the fix -/
 
